@@ -689,6 +689,7 @@ package bluemonday
 //@   requires forall i int :: 0 <= i && i < len(funcs) ==> funcs[i] != nil
 //@   modifies nothing
 //@   decreases len(value)
+//@   ensures[C18] result ==> rcOK(elems(value), off(value), len(value), funcs)
 
 //@ func sanitise_ugc.main
 //@   at-call (*bluemonday.Policy).Sanitize(p, s)
@@ -697,3 +698,22 @@ package bluemonday
 //@ func sanitise_html_email.main
 //@   at-call (*bluemonday.Policy).Sanitize(p, s)
 //@     assert[C15] p.requireNoFollow && p.requireNoFollowFullyQualifiedLinks && p.addTargetBlankToFullyQualifiedLinks && p.requireParseableURLs
+
+//@ func css.BaseHandler
+//@   modifies nothing
+//@   ensures[C10,C18] !result
+
+//@ func css.GetDefaultHandler
+//@   modifies nothing
+//@   ensures[C10,C18] !(attr in defaultStyleHandlers) ==> result == fnvalue(css.BaseHandler)
+
+//@ func css.in
+//@   modifies nothing
+//@   ensures[C18] result ==> (forall i int :: 0 <= i && i < len(value) ==> (exists j int :: 0 <= j && j < len(arr) && arr[j] == value[i]))
+//@   loop 0 "for _, i := range value"
+//@     invariant[C18] forall k int :: 0 <= k && k <= rangeindex ==> (exists j int :: 0 <= j && j < len(arr) && arr[j] == value[k])
+//@     invariant[C18] rangeindex < len(value)
+//@   loop 1 "for _, j := range arr"
+//@     invariant[C18] forall k int :: 0 <= k && k <= $idx(0) ==> (exists j int :: 0 <= j && j < len(arr) && arr[j] == value[k])
+//@     invariant[C18] foundString ==> (exists j int :: 0 <= j && j < len(arr) && arr[j] == value[$idx(0) + 1])
+//@     invariant[C18] $idx(0) + 1 < len(value) && $idx(0) >= 0 - 1
